@@ -15,6 +15,8 @@ type session struct {
 	started      bool
 	offlineUntil map[int]int
 	syncCalls    int // storage calls of the last complete sync RPC (for fault placement)
+	syncCallNames []string // their names, learnt from the last pushing sync of this run
+	c05          *c05Faulter
 	pendingAttach map[int]bool
 	lateAttach   map[int]int // client -> step at which it first attaches
 	faultsLeft   int
@@ -130,6 +132,10 @@ func SessionNext(rc *RunCtx) *Step {
 			st := &Step{Op: "update", C: c}
 			root := sd.Doc.Root()
 			for k := 0; k < n; k++ {
+				if cp := cfg.Extra["cons_pct"]; cp > 0 && r.IntN(100) < cp {
+					st.Edits = append(st.Edits, consEdit(rc.G, c))
+					continue
+				}
 				if cfg.Kinds["presence"] > 0 && r.IntN(100) < cfg.Kinds["presence"] {
 					st.Edits = append(st.Edits, *rc.G.GenPresence(c))
 					continue
@@ -162,7 +168,14 @@ func SessionNext(rc *RunCtx) *Step {
 			if kind == "push_only" {
 				st.Flag = "push_only"
 			}
-			s.maybeFault(rc, st)
+			if cfg.Extra["c05"] > 0 {
+				if s.c05 == nil {
+					s.c05 = &c05Faulter{}
+				}
+				s.c05.decorate(rc, s, st)
+			} else {
+				s.maybeFault(rc, st)
+			}
 			return st
 		case "offline":
 			if !attached {
@@ -273,5 +286,8 @@ func (s *session) maybeFault(rc *RunCtx, st *Step) {
 func (s *session) noteRPC(res *StepResult) {
 	if res.RPC != nil && res.Err == nil && len(res.RPC.Calls) > 0 {
 		s.syncCalls = len(res.RPC.Calls)
+		if len(res.RPC.Calls) >= len(s.syncCallNames) {
+			s.syncCallNames = append([]string(nil), res.RPC.Calls...)
+		}
 	}
 }
